@@ -32,6 +32,8 @@ inductive Op where
   (hook H1: 0 = entry write, 2 = index tmp write, 3 = index rename, 7 = io_uring submission, 8 = write through
   the storage layer); `fd` = FD backend.  If `op` performs no such event it completes normally. -/
   | crashAt (kind n : Nat) (fd : Bool) (op : Op)
+  /-- `op` addressed to the second instance of the process (directory 1) -/
+  | onB (op : Op)
   deriving Repr
 
 def withInst (p : Proc) (f : Inst → Proc × Inst × Out) : Proc × Out :=
@@ -75,7 +77,17 @@ def crashBatchDisk (c : Cfg) (p : Proc) (i : Inst) (t : Topic) (batch : List Pay
 
 def applyIdx (m : AMap Topic Pos) (l : List (Topic × Pos)) : AMap Topic Pos := l.foldl (fun m x => m.insert x.1 x.2) m
 
+/-- clean shutdown of the second instance as well -/
+def closeSecond (p : Proc) : Proc :=
+  let q := closeInst { p with inst := p.inst2, inst2 := none }
+  { q with inst := p.inst, inst2 := none }
+
 def step (c : Cfg) (p : Proc) : Op → Proc × Out
+  | .onB op =>
+    -- the second instance becomes the addressed one for the duration of the operation
+    let sw : Proc := { p with inst := p.inst2, inst2 := p.inst, curDir := 1 }
+    let r := step c sw op
+    ({ r.1 with inst := r.1.inst2, inst2 := r.1.inst, curDir := 0 }, r.2)
   | .crashAt kind0 n fd op =>
     -- kind 8 = a write through the storage layer: the one entry write of an append, the entry writes of the
     -- sequential batch path (the io_uring path does not go through the storage layer)
@@ -115,10 +127,10 @@ def step (c : Cfg) (p : Proc) : Op → Proc × Out
           (dieWith normal.1 (applyIdx idx0 (log.take n)), .crashed)
         else normal
   | .clock ms => ({ p with sysClock := ms }, .ok)
-  | .open_ mode => (openInst c (closeInst p) 0 mode, .ok)
+  | .open_ mode => (openInst c (closeInst p) p.curDir mode, .ok)
   | .close => (closeInst p, .ok)
-  | .restart => (restartProc p, .ok)
-  | .kill => (killProc p, .ok)
+  | .restart => (restartProc (closeSecond p), .ok)
+  | .kill => (killProc { p with inst2 := none }, .ok)
   | .append t pay => withInst p fun i => appendForTopic c p i t pay
   | .batch t ps => withInst p fun i => batchAppendForTopic c p i t ps
   | .appendF t pay flt => withInst p fun i => appendForTopic c p i t pay (some flt)
@@ -133,13 +145,13 @@ def step (c : Cfg) (p : Proc) : Op → Proc × Out
   | .reclaim =>
     let (p', victims) := reclaim p
     (p', .names (victims.filterMap fun k => (p.files[k]?).map (·.name)))
-  | .ls => (p, .names ((p.files.filter fun fs => fs.present && fs.dir == 0).map (·.name)))
+  | .ls => (p, .names ((p.files.filter fun fs => fs.present && fs.dir == p.curDir).map (·.name)))
   | .trks =>
-    (p, .trks ((((List.range p.files.length).zip p.files).filter fun (_, fs) => fs.present && fs.dir == 0).map
+    (p, .trks ((((List.range p.files.length).zip p.files).filter fun (_, fs) => fs.present && fs.dir == p.curDir).map
       fun (k, fs) => (fs.name, p.trk.files.get? k)))
   | .trk name =>
     match (List.range p.files.length).find? (fun k => match p.files[k]? with
-        | some fs => fs.present && fs.dir == 0 && fs.name == name
+        | some fs => fs.present && fs.dir == p.curDir && fs.name == name
         | none => false) with
     | none => (p, .trk none)
     | some k => (p, .trk (p.trk.files.get? k))
